@@ -408,10 +408,14 @@ class SharesManager(BaseManager):
         if parents:
             parent = parents[-1]
             children = parent.get_items_for_directory(directory_object)
-            directory_object.items |= children
+            directory_object.items |= self._move_items(children, directory_object)
             parent.items -= children
 
         self._shared_directories.append(directory_object)
+
+        if parents:
+            self._build_term_map(directory_object)
+            self._cleanup_term_map()
 
         self._event_bus.emit_sync(SharedDirectoryChangeEvent(directory_object))
 
@@ -492,7 +496,8 @@ class SharesManager(BaseManager):
         # directory
         if parents:
             parent = parents[-1]
-            parent.items |= shared_directory.items
+            parent.items |= self._move_items(shared_directory.items, parent)
+            self._build_term_map(parent)
 
         self._cleanup_term_map()
 
@@ -913,6 +918,21 @@ class SharesManager(BaseManager):
             term: values for term, values in self._term_map.items()
             if len(values) > 0
         }
+
+    def _move_items(self, items: set[SharedItem], target: SharedDirectory) -> set[SharedItem]:
+        """Creates the equivalent of the given items for the ``target`` shared
+        directory: an item always refers to the shared directory holding it
+        and its ``subdir`` is relative to that directory
+        """
+        moved_items = set()
+        for item in items:
+            subdir = os.path.relpath(
+                os.path.dirname(item.get_absolute_path()), target.absolute_path)
+            moved_item = SharedItem(
+                target, '' if subdir == '.' else subdir, item.filename, item.modified)
+            moved_item.attributes = item.attributes
+            moved_items.add(moved_item)
+        return moved_items
 
     def _get_parent_directories(self, shared_directory: SharedDirectory) -> list[SharedDirectory]:
         """Returns a list of parent shared directories. The parent directories
